@@ -4,7 +4,7 @@ LEVEL = "proof"
 TAGS = ("C14",)
 CONTRACT_MODULES = ALL_CONTRACTS
 FUNCTIONS = [H + "handleAtCommand", S + "disableExclusion", S + "enableExclusion", S + "exitExcludedRegion", S + "isAnyPointExcluded",
-             S + "isPointExcluded", S + "processLinearMoves", P + "handleAtCommandQueuing", "AtCommandAction.AtCommandAction.matches"]
+             S + "isPointExcluded", S + "processLinearMoves", P + "handleAtCommandQueuing", "AtCommandAction.AtCommandAction.matches", "__init__.ExcludeRegionPlugin._handleSettingsUpdated"]
 ASSUMPTIONS = ["A1", "A2", "A3", "A4", "A5", "INDUCTION"]
 EXTRA_ASSUMPTIONS = ["handleAtCommand is verified for 0, 1 or 2 configured entries per @-command with symbolic actions/patterns (bounded in the "
                      "number of entries; everything else symbolic); a configured parameterPattern is an opaque predicate"]
@@ -12,7 +12,7 @@ EXPLANATION = ("isPointExcluded/isAnyPointExcluded: while disabled no point is e
                "(so decisions after re-enabling use the true position); disableExclusion mid-episode returns exactly an exit sequence "
                "(C03.resync obligations) and handleAtCommand sends it in order through the comm instance; streaming to SD or no matching "
                "entry: returns False with an empty write set; AtCommandAction.matches is true exactly when the command names are equal and "
-               "the configured pattern (an opaque predicate) matches the parameter text at its start. " + STREAM_NOTE)
+               "the configured pattern (an opaque predicate) matches the parameter text at its start. " + STREAM_NOTE + " The @-command table built by _handleSettingsUpdated keeps every configured action, grouped by command in configuration order.")
 BREAKERS = [
     {"module": "ExcludeRegionState", "old": "        xAxis = self.position.X_AXIS\n        yAxis = self.position.Y_AXIS\n        exclude = False\n\n        for index",
      "new": "        xAxis = self.position.X_AXIS\n        yAxis = self.position.Y_AXIS\n        exclude = False\n        if (not self._exclusionEnabled):\n            return False\n\n        for index",
